@@ -33,14 +33,24 @@ theorem C12_deriv_bernoulli_odds (x p m : ℝ) (hm : 0 ≤ m) :
   refine h.congr_deriv ?_
   simp [bernoulli_odds, bernoulli_odds_grad, D, evalR] <;> gcp_close
 
-/-- Bernoulli with logit link `log (eᵐ + 1) - x m` everywhere. -/
+/-- Bernoulli with logit link `log (eᵐ + 1) - x m` everywhere.  (Second alternative: an overflow-safe
+spelling of the softplus, `max(m, 0) + log1p(exp(−|m|))`, is not differentiable piece by piece at `0`; it is
+handled through its closed form.) -/
 theorem C12_deriv_bernoulli_logit (x p m : ℝ) :
     HasDerivAt (fun m => bernoulli_logit.evalR x p m) (bernoulli_logit_grad.evalR x p m) m := by
   have h1 : 0 < Real.exp m + 1 := by positivity
   have h1' : 0 < 1 + Real.exp m := by positivity
-  have h := hasDerivAt_D x p bernoulli_logit m (by gcp_defined [bernoulli_logit])
-  refine h.congr_deriv ?_
-  simp [bernoulli_logit, bernoulli_logit_grad, D, evalR] <;> gcp_close
+  first
+  | (have h := hasDerivAt_D x p bernoulli_logit m (by gcp_defined [bernoulli_logit])
+     refine h.congr_deriv ?_
+     simp [bernoulli_logit, bernoulli_logit_grad, D, evalR] <;> gcp_close)
+  | (have hcf : ∀ y, bernoulli_logit.evalR x p y = Real.log (Real.exp y + 1) - x * y := by
+       intro y
+       softplus_closed [bernoulli_logit] at y
+     have hg : bernoulli_logit_grad.evalR x p m = Real.exp m / (Real.exp m + 1) - x := by
+       simp [bernoulli_logit_grad, evalR] <;> gcp_close
+     rw [hg]
+     exact (logit_spec_deriv x m).congr_of_eventuallyEq (Filter.Eventually.of_forall hcf))
 
 /-- Poisson `m - x log (m + EPS)` on `m ≥ 0`. -/
 theorem C12_deriv_poisson (x p m : ℝ) (hm : 0 ≤ m) :
